@@ -83,10 +83,13 @@ SignSound == LET N == LenOf(W) IN N > 0 =>
 \* (Lattice = values the perturbed samples may take)
 CONSTANT Lattice
 Dist(a, b) == IF a >= b THEN a - b ELSE b - a
+\* traces whose every sample is strictly closer than r to the corresponding sample of W (on the lattice)
+NearSeqs(v, N, r) == {q \in [1..N -> Lattice] : \A k \in 1..N : Dist(q[k], W[v][k]) < r}
+BallTraces(N, r) == LET U == UNION {NearSeqs(v, N, r) : v \in Vars} IN
+                    {X \in [Vars -> U] : \A v \in Vars : X[v] \in NearSeqs(v, N, r)}
 BallSound == LET N == LenOf(W) IN N > 0 =>
    \A p \in Forms : (IffXorFree(p) /\ IsBoolFormula(p)) =>
       LET sg == Sig(p, W, N, S, StdMode) st == Sat(p, W, N, S) IN
       \A t \in 1..N : (IsFin(sg[t]) /\ sg[t] # 0) =>
-         \A X \in [Vars -> [1..N -> Lattice]] :
-            (\A v \in Vars : \A k \in 1..N : Dist(X[v][k], W[v][k]) < Abs(sg[t])) => Sat(p, X, N, S)[t] = st[t]
+         \A X \in BallTraces(N, Abs(sg[t])) : Sat(p, X, N, S)[t] = st[t]
 =============================================================================
